@@ -1072,6 +1072,7 @@ func (c *c06) externalMethodRoots() []types.Object {
 // type-checked with the checked package route served to its imports, so route.Target's fields resolve there.
 func (c *c06) externalWrites() []string {
 	var out []string
+	mf := c.metricsFields()
 	seenW := map[string]bool{}
 	var dirs []string
 	filepath.WalkDir(c.x.repo, func(p string, d os.DirEntry, err error) error {
@@ -1140,6 +1141,9 @@ func (c *c06) externalWrites() []string {
 					continue
 				}
 				k := w.kind + " " + w.what
+				if w.kind == "call" && c06IsMetricsCall(mf, w.what) {
+					k = "metrics " + w.what
+				}
 				if !seenW[k] {
 					seenW[k] = true
 					out = append(out, k)
@@ -1149,6 +1153,62 @@ func (c *c06) externalWrites() []string {
 	}
 	sort.Strings(out)
 	return out
+}
+
+
+// metricsFields: the fields of package route's structs whose declared type comes from a metrics package
+// (github.com/go-kit/kit/metrics, fabio's own metrics): "Target.Timer", "Target.RxCounter", … Calls on them are
+// internally synchronised counters and no routing input; they are classified "metrics" by the TYPE of the field, so
+// that a new counter, or an existing one used at a new place, is not a new kind of write.
+func (c *c06) metricsFields() map[string]bool {
+	out := map[string]bool{}
+	for _, f := range c.x.files("route") {
+		alias := map[string]bool{}
+		for _, im := range f.Imports {
+			path := strings.Trim(im.Path.Value, `"`)
+			if path == "github.com/go-kit/kit/metrics" || path == "github.com/fabiolb/fabio/metrics" {
+				name := "metrics"
+				if im.Name != nil {
+					name = im.Name.Name
+				}
+				alias[name] = true
+			}
+		}
+		for _, d := range f.Decls {
+			gd, ok := d.(*ast.GenDecl)
+			if !ok || gd.Tok != token.TYPE {
+				continue
+			}
+			for _, sp := range gd.Specs {
+				ts, ok := sp.(*ast.TypeSpec)
+				if !ok {
+					continue
+				}
+				st, ok := ts.Type.(*ast.StructType)
+				if !ok {
+					continue
+				}
+				for _, fl := range st.Fields.List {
+					se, ok := fl.Type.(*ast.SelectorExpr)
+					if !ok {
+						continue
+					}
+					if pk, ok := se.X.(*ast.Ident); ok && alias[pk.Name] {
+						for _, n := range fl.Names {
+							out[ts.Name.Name+"."+n.Name] = true
+						}
+					}
+				}
+			}
+		}
+	}
+	return out
+}
+
+// isMetricsCall: "Target.Timer.Observe" with Target.Timer a metrics field.
+func c06IsMetricsCall(mf map[string]bool, what string) bool {
+	i := strings.LastIndex(what, ".")
+	return i > 0 && mf[what[:i]]
 }
 
 func c06LeanTriples(name string, ws []c06Write) string {
@@ -1531,7 +1591,7 @@ func init() {
 		x.defBool("pickersInReach", pickersIn)
 
 		// ---- proxy.ServeHTTP: writes through the target ----
-		var pw, pm, pc, pa []string
+		var pw, pm, pc, pa, pcm []string
 		if fd := x.funcDecl("proxy", "HTTPProxy", "ServeHTTP"); fd != nil {
 			// the target variable: `t := p.Lookup(r)`
 			tname := ""
@@ -1575,7 +1635,12 @@ func init() {
 					if _, direct := se.X.(*ast.Ident); direct {
 						pm = append(pm, "Target."+se.Sel.Name) // a method of route.Target: must be in lookupReach
 					} else if !c06ReadOnly[se.Sel.Name] {
-						pc = append(pc, "target"+strings.TrimPrefix(x.src(se), tname))
+						call := "target" + strings.TrimPrefix(x.src(se), tname)
+						if c06IsMetricsCall(c.metricsFields(), "Target"+strings.TrimPrefix(x.src(se), tname)) {
+							pcm = append(pcm, call)
+						} else {
+							pc = append(pc, call)
+						}
 					}
 				}
 				return true
@@ -1655,13 +1720,21 @@ func init() {
 		}
 		sort.Strings(recvs)
 		x.defStrList("tableLookupReceivers", recvs)
-		x.defStrList("externalTableWrites", c.externalWrites())
+		// (kind, what) pairs: kind = plain | atomic | call | locked | metrics
+		var ewParts []string
+		for _, w := range c.externalWrites() {
+			i := strings.Index(w, " ")
+			ewParts = append(ewParts, fmt.Sprintf("(%s, %s)", leanStr(w[:i]), leanStr(w[i+1:])))
+		}
+		x.defRaw(fmt.Sprintf("def externalTableWrites : List (String × String) := [%s]", strings.Join(ewParts, ", ")))
 		sort.Strings(pm)
 		sort.Strings(pc)
 		sort.Strings(pa)
 		x.defStrList("proxyTargetWrites", pw)
 		x.defStrList("proxyTargetMethods", pm)
-		x.defStrList("proxyTargetCalls", pc)
+		x.defStrList("proxyTargetCalls", pc) // non-read-only calls through the target on fields that are NOT metrics handles
+		sort.Strings(pcm)
+		x.defStrList("proxyTargetMetricsCalls", pcm)
 		x.defStrList("proxyTargetAliases", pa)
 		return nil
 	})
